@@ -12,7 +12,7 @@
    error sets; it is not proved for all documents. *)
 From Coq Require Import ZArith List String Bool.
 From TV Require Import Py.Prelude Model.Schema Model.ImplInput Model.ImplExec Model.Envelope
-     Model.ImplValidate Model.SpecValidate Model.RunValidate Proofs.ValidateProofs Proofs.ValidateRules Proofs.ValidateValues Proofs.ValidateSites Proofs.ValidateWalk Proofs.ValidateTree Proofs.SingleRoot
+     Model.ImplValidate Model.SpecValidate Model.RunValidate Proofs.ValidateProofs Proofs.ValidateRules Proofs.ValidateValues Proofs.ValidateSites Proofs.ValidateWalk Proofs.ValidateTree Proofs.SingleRoot Proofs.ValidateSpreads
      Gen.Wiring_gen Proofs.Wiring.
 Import ListNotations.
 Open Scope string_scope.
@@ -173,6 +173,38 @@ Example C07_two_root_keys_example :
                  SInline (1,2)%Z (Some "Subscription") [] [SInline (1,3)%Z None [] [SField (1,4)%Z None "kb" [] [] []]]].
 Proof. exists "ka", "kb". repeat split; [discriminate|cbn; auto|cbn; auto]. Qed.
 
+(* 5.5.2.3 fragment spread is possible, EXACT: the rule reports nothing exactly when every inline fragment and every
+   spread of a defined fragment -- wherever it sits: operation, nested selection, fragment -- can apply in the type scope
+   it is written in (`applies_in`, which for a type condition is the specification's `applies`: both composite =>
+   possible types intersect); the entries are a pure function of the document (scopes handed down the tree) *)
+Theorem C07_possible_spreads_rule_exact V doc :
+  inline_possible_errors V (inlined_in (ValidateWalk.walked V doc)) ++
+  spread_possible_errors V (fragments doc) (spreaded_in (ValidateWalk.walked V doc)) = [] <->
+  (forall scope tc l, In (scope, (tc, l)) (doc_inl V doc) -> applies_in V scope tc = true) /\
+  (forall scope n l p f, In (scope, (n, l, p)) (doc_spr V doc) -> find_fragment (fragments doc) n = Some f ->
+                         applies_in V scope (Some (fr_type f)) = true).
+Proof. exact (possible_spreads_exact V doc). Qed.
+
+Theorem C07_applies_is_the_specifications V scope t : applies_in V scope (Some t) = applies V scope t.
+Proof. exact (applies_in_spec V scope t). Qed.
+
+Theorem C07_impossible_inline_fragment_refused V doc scope tc l :
+  In (scope, (tc, l)) (doc_inl V doc) -> applies_in V scope tc = false -> accepted V doc = false.
+Proof.
+  intros Hin Hno. destruct (accepted V doc) eqn:E; [|reflexivity]. exfalso.
+  apply accepted_iff_clean, validate_clean_iff in E. destruct E as (_ & _ & _ & _ & _ & _ & _ & _ & Hq & _).
+  apply (possible_spreads_exact V doc) in Hq. destruct Hq as [H1 _]. rewrite (H1 scope tc l Hin) in Hno. discriminate.
+Qed.
+
+Theorem C07_impossible_fragment_spread_refused V doc scope n l p f :
+  In (scope, (n, l, p)) (doc_spr V doc) -> find_fragment (fragments doc) n = Some f ->
+  applies_in V scope (Some (fr_type f)) = false -> accepted V doc = false.
+Proof.
+  intros Hin Hf Hno. destruct (accepted V doc) eqn:E; [|reflexivity]. exfalso.
+  apply accepted_iff_clean, validate_clean_iff in E. destruct E as (_ & _ & _ & _ & _ & _ & _ & _ & Hq & _).
+  apply (possible_spreads_exact V doc) in Hq. destruct Hq as [_ H2]. rewrite (H2 scope n l p f Hin Hf) in Hno. discriminate.
+Qed.
+
 Print Assumptions C07_source_invokes_every_supported_rule.
 Print Assumptions C07_cycle_rule_exact.
 Print Assumptions C07_fragment_cycle_refuses.
@@ -196,3 +228,6 @@ Print Assumptions C07_any_flagged_rule_refuses.
 Print Assumptions C07_violating_document_refused.
 Print Assumptions C07_two_root_keys_reported.
 Print Assumptions C07_two_root_keys_refused.
+Print Assumptions C07_possible_spreads_rule_exact.
+Print Assumptions C07_impossible_inline_fragment_refused.
+Print Assumptions C07_impossible_fragment_spread_refused.
